@@ -274,6 +274,12 @@ def mutate(
     else:
         # No exception was caught, so write the output file(s)
 
+        # Serialize and encode first: opening a file for writing truncates it,
+        # so a simfile that can't be serialized or encoded must fail before
+        # any file is opened
+        output_data = str(simfile)
+        output_data.encode(encoding, kwargs.get("errors") or "strict")
+
         # Write backup file if requested
         if backup_filename:
             with filesystem.open(
@@ -285,4 +291,4 @@ def mutate(
         with filesystem.open(
             output_filename or input_filename, "w", encoding=encoding, **kwargs
         ) as writer:
-            simfile.serialize(cast(TextIO, writer))
+            writer.write(output_data)
